@@ -140,6 +140,19 @@ def run(repo, rep):
             if isinstance(c, ast.Call) and call_name(c) == 'id':
                 n += 1
                 marker = 'recursion' in f.name.lower()
+                if not (f.key in allowed_id or marker):
+                    # id(x) asked only whether x is being visited (`id(x) in ctx.visited`, directly or through a local name of the
+                    # set): the question is_visited asks; the answer does not depend on the number
+                    from engine.astutil import enclosing_map as _em
+                    p_ = _em(f.node).get(id(c))
+                    if isinstance(p_, ast.Compare) and len(p_.ops) == 1 and isinstance(p_.ops[0], (ast.In, ast.NotIn)) and p_.left is c:
+                        cont = p_.comparators[0]
+                        fld = roles['field']
+                        alias_ok = isinstance(cont, ast.Name) and any(
+                            isinstance(s_, ast.Assign) and len(s_.targets) == 1 and isinstance(s_.targets[0], ast.Name) and s_.targets[0].id == cont.id
+                            and isinstance(s_.value, ast.Attribute) and s_.value.attr == fld for s_ in ast.walk(f.node))
+                        if (isinstance(cont, ast.Attribute) and cont.attr == fld) or alias_ok:
+                            marker = True
                 rep.check(f.key in allowed_id or marker, 'C19.c', '%s:id()' % f.qualname, '%s:%d' % (f.module.relpath, c.lineno),
                           'identity used only for the visited set / recursion marker',
                           '%s uses id(%s): object identity must not influence ordering or text (the allocator history '
